@@ -30,6 +30,7 @@ type ChunkPhys struct {
 	EncStats     bool       `json:"enc_stats,omitempty"`
 	KV           bool       `json:"kv,omitempty"`
 	LegacyLabels bool       `json:"legacy_labels,omitempty"` // label absent level streams BIT_PACKED (only honoured when the column has no such levels)
+	ZeroOffsets  bool       `json:"zero_offsets,omitempty"`  // write dictionary_page_offset = 0 and index_page_offset = 0 although the chunk has neither page (as older writers do)
 }
 
 // Inject describes one unsupported feature placed into an otherwise conformant file.
@@ -578,6 +579,10 @@ func buildChunk(col vt.Column, typ int32, recs []*vt.Val, cp ChunkPhys, inj *Inj
 	if cp.KV {
 		v := "x"
 		cm.KV = []KeyValue{{Key: "colkey", Value: &v}}
+	}
+	if cp.ZeroOffsets && cm.DictPageOffset == nil {
+		z1, z2 := int64(0), int64(0)
+		cm.DictPageOffset, cm.IndexPageOffset = &z1, &z2
 	}
 	return pages, cm, nil
 }
